@@ -930,16 +930,20 @@ class reactive_ops:
             except Exception:
                 return True
 
-        if xrefs:
-            def trigger_x(*args):
-                if selects(True):
-                    trigger.param.trigger('value')
-            bind(trigger_x, *xrefs, watch=True)
-        if yrefs:
-            def trigger_y(*args):
-                if selects(False):
-                    trigger.param.trigger('value')
-            bind(trigger_y, *yrefs, watch=True)
+        # The relays are internal watchers: they hear of every assignment
+        # (also of a value comparing equal to the previous one) and run
+        # after every expression has been invalidated (precedence -1) but
+        # before the callbacks of users, so that a callback that raises
+        # cannot leave an expression stale
+        def trigger_x(*args):
+            if selects(True):
+                trigger.param.trigger('value')
+        def trigger_y(*args):
+            if selects(False):
+                trigger.param.trigger('value')
+        for refs, relay in ((xrefs, trigger_x), (yrefs, trigger_y)):
+            for _, ps in full_groupby(refs, lambda r: id(r.owner)):
+                ps[0].owner.param._watch(relay, [r.name for r in ps], onlychanged=False, precedence=-0.5)
         def ternary(condition, _):
             return resolve_value(x) if condition else resolve_value(y)
         return bind(ternary, self._reactive, trigger.param.value)
